@@ -247,7 +247,8 @@ def finish(prop, ctx, t0, tier, explanation, assumptions, extra=None, replay_key
         "counts": ctx.counts,
         "analysed": {"bodies": len(facts.bodies), "fns": len(facts.fns()),
                      "source_hash": facts.meta.get("source_hash"), "repo": facts.meta.get("repo"),
-                     "facts_cached": bool(facts.meta.get("cached"))},
+                     "facts_cached": bool(facts.meta.get("cached")),
+                     "normalisation": facts.meta.get("inline"), "alignment": facts.meta.get("align")},
         "boundary": [o.to_json() for o in bnd],
         "known_findings_matched": [o.key for o in known],
         "exhaustive": True,
